@@ -51,6 +51,7 @@ fn main() {
         "chan" => tvh::chan::run(&mut rng, thorough, &corpus),
         "stack" => tvh::stack::run(&mut rng, thorough, &corpus),
         "tui" => tvh::tui::run(&mut rng, thorough, &corpus),
+        "platform" => tvh::platform::run(&mut rng, thorough, &corpus),
         _ => { eprintln!("unknown component {comp}"); std::process::exit(2); }
     };
     run.write(&out, &comp).expect("write outputs");
